@@ -233,12 +233,69 @@ def run(ctx):
         if r:
             res["oracle_failures"].append(r)
         sigs.add(("hourly_fit", j % 2))
+    # ---- daily fits: reported RMSE / MAE / CVRMSE / PNRMSE vs the textbook formulas on the finite (observed, predicted) pairs of
+    # predict(baseline), and the CVRMSE gate — incl. baselines with days that have usage but no temperature, and missing-usage days
+    dscen = ["ordinary", "temperature_outage", "scattered_missing_temperature", "missing_usage"]
+    for j, scen in enumerate(dscen if (thorough or ctx.get("budget_scale", 1) == 1) else []):
+        r = daily_fit_oracle(rng, scen)
+        res["evaluations"] += 1
+        res["hist"]["daily_fit:" + scen] = res["hist"].get("daily_fit:" + scen, 0) + 1
+        if r:
+            res["oracle_failures"].append(r)
+        sigs.add(("daily_fit", scen))
     res["distinct_nontrivial"] = len(sigs)
     res["rule"] = ("series of 2-1000 pairs: ordinary, zero-mean, zero-spread, negative (net-metered), tiny, constant residual, perfect fit, "
                    "with NaN/+-inf rows and parameter counts up to n+3; _safe_divide on a boundary grid; the hourly gate on a threshold grid "
-                   "through the real method; hourly fits (default and adaptive) with interpolated hours. distinct = (kind, long?, has "
+                   "through the real method; hourly fits (default and adaptive) with interpolated hours; daily fits (ordinary, four weeks without weather but with usage, scattered missing temperature, missing usage) whose reported RMSE/MAE/CVRMSE/PNRMSE and gate are recomputed from predict(baseline). distinct = (kind, long?, has "
                    "non-finite rows?, params>=n?, cvrmse undefined?, pnrmse undefined?)")
     return res
+
+
+def daily_fit_oracle(rng, scenario):
+    """DailyModel with the selected component fits as the final model (alpha_final_type=None: what is reported is what predicts),
+    error dict and CVRMSE gate vs independent recomputation from predict(baseline)."""
+    import contextlib, io
+    from opendsm.eemeter.models.daily.model import DailyModel
+    from opendsm.eemeter.models.daily.data import DailyBaselineData
+    n = 365
+    idx = pd.date_range("2021-01-01", periods=n, freq="D", tz="America/Chicago")
+    g = np.random.default_rng(rng.randrange(1 << 30))
+    doy = np.arange(n)
+    T = 52 - 24 * np.cos(2 * np.pi * doy / 365) + g.normal(0, 4, n)
+    u = 12 + 1.4 * np.clip(58 - T, 0, None) + 0.7 * np.clip(T - 70, 0, None) + g.normal(0, 1.5, n)
+    df = pd.DataFrame({"temperature": T, "observed": u}, index=idx)
+    if scenario == "temperature_outage":
+        df.iloc[5:33, 0] = np.nan                                   # four January weeks without weather, usage present
+    elif scenario == "scattered_missing_temperature":
+        df.iloc[sorted(g.choice(np.arange(3, n - 3), 22, replace=False)), 0] = np.nan
+    elif scenario == "missing_usage":
+        df.iloc[sorted(g.choice(np.arange(3, n - 3), 20, replace=False)), 1] = np.nan
+    settings = {"developer_mode": True, "silent_developer_mode": True, "alpha_final_type": None, "final_bounds_scalar": None}
+    try:
+        with contextlib.redirect_stdout(io.StringIO()), contextlib.redirect_stderr(io.StringIO()):
+            data = DailyBaselineData(df, is_electricity_data=True)
+            m = DailyModel(settings=settings).fit(data, ignore_disqualification=True)
+            pred = m.predict(data, ignore_disqualification=True)
+    except Exception as e:  # noqa
+        return dict(clause="daily_fit_runs", scenario=scenario, error=f"{type(e).__name__}: {e}"[:200])
+    o, p = pred["observed"].to_numpy(dtype=float), pred["predicted"].to_numpy(dtype=float)
+    ok = np.isfinite(o) & np.isfinite(p)
+    o, p = o[ok], p[ok]
+    resid = o - p
+    rmse = float(np.sqrt(np.mean(resid ** 2)))
+    want = dict(RMSE=rmse, MAE=float(np.mean(np.abs(resid))), CVRMSE=rmse / float(np.mean(o)),
+                PNRMSE=rmse / float(np.quantile(o, 0.95) - np.quantile(o, 0.05)))
+    stored = m.to_dict()["info"]["error"]
+    for k, v in want.items():
+        for src, rep in (("model.error", m.error[k]), ("to_dict()['info']['error']", stored[k])):
+            if not close(float(rep), v, 1e-7):
+                return dict(clause="daily_reported_statistic_is_not_the_textbook_one", scenario=scenario, statistic=k, where=src,
+                            reported=float(rep), textbook_on_finite_pairs=v, finite_pairs=int(ok.sum()))
+    has_dq = any("cvrmse" in w.qualified_name.lower() for w in m.disqualification)
+    if has_dq != (want["CVRMSE"] > m.settings.cvrmse_threshold):
+        return dict(clause="daily_gate_is_exactly_cvrmse_over_threshold", scenario=scenario, cvrmse=want["CVRMSE"],
+                    threshold=float(m.settings.cvrmse_threshold), disqualified=has_dq)
+    return None
 
 
 def hourly_fit_oracle(rng, adaptive):
